@@ -3,7 +3,7 @@
    The definitions are REGENERATED into Generated.v from assets/platforms/*.yaml and
    platform/definition.go on every run, so these statements are about what the tree says now. *)
 From Coq Require Import List.
-From Scrapli Require Import Bytes BytesLemmas Regex PlatformTypes Generated Channel Network NetworkAbs NetworkLemmas NetworkTwins Platform PlatformLemmas PlatformNav.
+From Scrapli Require Import Bytes BytesLemmas Regex PlatformTypes Generated Channel Network NetworkAbs NetworkLemmas NetworkTwins Platform PlatformLemmas PlatformNav PlatformMerge.
 
 (* every advertised name has an embedded definition (exhaustive over the generated name list) *)
 Theorem C17_names : forallb (fun n => mem_bytes n embedded_platform_files) advertised_platforms = true.
@@ -151,6 +151,14 @@ Proof. exact every_network_platform_navigates_identity_order. Qed.
 Theorem C17_navigation_executes : forallb nav_executes_b real_network_platforms = true.
 Proof. exact nav_executes_everywhere. Qed.
 
+(* the merge as CODED: the statement list of Platform.mergeVariant, read from the Go AST on every run,
+   overwrites exactly the sections the variant defines, each from the variant's same section --
+   which is what the model [merge_variant] (C17_variant) does *)
+Theorem C17_variant_code : forall defined,
+  overwritten merge_variant_clauses defined
+  = flat_map (fun x => if defined x then [(x, x)] else []) merge_sections.
+Proof. exact merge_variant_code_overwrites. Qed.
+
 Print Assumptions C17_names.
 Print Assumptions C17_wf.
 Print Assumptions C17_paths.
@@ -165,3 +173,4 @@ Print Assumptions C17_start_only_unreachable.
 Print Assumptions C17_strict_navigation.
 Print Assumptions C17_navigation_identity_order.
 Print Assumptions C17_navigation_executes.
+Print Assumptions C17_variant_code.
